@@ -51,6 +51,8 @@ def build(it, t, leaves=None):
         elif t.kind == "hex":
             v = it.fresh_str(t.name)
             it.assume(stubs.ISHEX(v.e))
+            # what ISHEX means for the string theory: an even number of hexadecimal digits
+            it.assume(z3.InRe(v.e, z3.Star(z3.Union(z3.Range("0", "9"), z3.Range("a", "f"), z3.Range("A", "F")))))
             it.assume(z3.Length(v.e) < 2 ** 32)
         elif t.kind == "choice":
             v = mk(t.kw["alts"][it.choose(len(t.kw["alts"]), t.name)])
